@@ -78,15 +78,13 @@ def check_skeletons(ctx):
         D.check_return(ctx, 'R2-skeleton', d)
     for kind in ('pack', 'unpack'):
         g, t = by[('generic', kind)], by[('template', kind)]
-        # handler bodies identical after normalisation
-        if g.try_node is not None and t.try_node is not None:
-            gh = [(unparse(h.type) if h.type else None, norm_handler(g, h)) for h in g.try_node.handlers]
-            th = [(unparse(h.type) if h.type else None, norm_handler(t, h)) for h in t.try_node.handlers]
-            st = '%s drivers: handlers generic %s | template %s' % (kind, gh, th)
-            if gh == th:
-                ctx.holds('R2-sibling-handlers', t.where, '%s drivers: %d handlers' % (kind, len(gh)), 'generic and generated handlers are the same statements', t.node.lineno, clause='a')
-            else:
-                ctx.violation('R2-sibling-handlers', t.where, st[:400], 'the generated driver handles failures differently from the generic driver', t.node.lineno, clause='a')
+        # both drivers implement the same failure discipline: the generic one was decided as an
+        # event language against it, the generated one statement by statement (R2-skeleton above)
+        bad = [o for o in ctx.obs if o.rule == 'R2-skeleton' and o.verdict != 'HOLDS' and (o.statement.startswith(g.label) or o.statement.startswith(t.label))]
+        if not bad:
+            ctx.holds('R2-sibling-handlers', t.where, '%s drivers: generic and generated' % kind, 'both add (cursor, field, class) to a passing PacketError and convert any other failure to PacketError(%s, field, class, cursor, message)' % (kind == 'unpack'), t.node.lineno, clause='a')
+        else:
+            ctx.violation('R2-sibling-handlers', t.where, '%s drivers: %s' % (kind, bad[0].statement[:200]), 'the generated driver and the generic driver do not handle failures the same way (%s)' % bad[0].reason[:160], t.node.lineno, clause='a')
         # (b) per-field call
         gs = D.generic_loop_shape(ctx, 'R2-field-call', g)
         ts = D.template_loop_shape(ctx, 'R2-field-call', ctx.repo, kind)
